@@ -110,7 +110,10 @@ def gen_timers(tier, seed):
 
 def suites(tier, seed):
     import hbgen
-    return [Suite("timers-after-close", "machine", lambda: gen_timers(tier, seed), monitor=timers_monitor, nontrivial=lambda c, il: True, canon=hbgen.canon, shards=16, shrink=False, timeout=300,
+    return [Suite("server-close-e2e", "faults", lambda: [Case("f%d" % i, ["run %s %d" % c], {"keep_prefix": 0, "fault": c[0]}) for i, c in enumerate([("srvclose", 0), ("srvclose200", 0), ("srvclose541", 1)] + ([] if tier == "quick" else [("srvclose0", 0), ("srvclose65535", 0), ("srvclose404", 0)]))],
+                  monitor=__import__("props.c05", fromlist=["x"]).e2e_monitor, nontrivial=lambda c, il: True, compare=False, shards=6, timeout=300,
+                  rule="real connection, I/O thread and client threads over the mock transport (a consumer waiting, a call in flight, a publisher publishing): the server closes the connection with reply code 320 / 200 / 541 (thorough: 0, 65535, 404): every thread is released and Connection::close returns ServerClosedConnection with exactly that code and text - for EVERY reply code"),
+            Suite("timers-after-close", "machine", lambda: gen_timers(tier, seed), monitor=timers_monitor, nontrivial=lambda c, il: True, canon=hbgen.canon, shards=16, shrink=False, timeout=300,
                   rule="the REAL I/O loop with its real heartbeat timers (300/400 ms): a client Connection.Close (flushed) or a server Connection.Close early in the session, then sleeps past one and two intervals with HEARTBEAT events, inbound bytes, stalls: the Close / CloseOk stays the last frame queued; exact diff against the Lean ConnHb model on the nominal clock"),
             Suite("slow-close-e2e", "hbe2e", lambda: gen_e2e(tier, seed), monitor=e2e_monitor, nontrivial=lambda c, il: True, compare=False, shards=4, timeout=120,
                   rule="real connection with heartbeats (1 s; thorough: 1/60, 2/2, off) over the mock transport; Connection::close while the broker takes 2.6 heartbeat intervals to answer CloseOk (it keeps sending heartbeats meanwhile): nothing may follow Connection.Close on the wire (the tx heartbeat timer fires during the wait), close returns Ok"),
